@@ -1074,7 +1074,7 @@ impl Prop for Prims {
     }
     fn floors(&self) -> Vec<(&'static str, u64, u64)> {
         match self.0 {
-            Which::Distance => vec![("exhaustive pairs", 100000, 2000000), ("prefix cells compared", 1000000, 20000000), ("pairs where a discount lowered the distance", 10000, 100000), ("random pairs beyond capacity 20", 500, 5000), ("long pairs with sampled prefix cells", 200, 2000), ("random cases with per-position character classes", 2000, 20000), ("re-classed repeat calls", 10000, 100000), ("random cases over an alphabet of 41-110 symbols", 3000, 30000), ("random cases over letters related by case or compatibility mappings", 3000, 30000), ("random cases over letters that agree in their low 8, 16 or 20 bits", 3000, 30000), ("calls on a word buffer overwritten in place since the call before", 20000, 200000), ("calls with one word held fixed while the other grows", 20000, 200000), ("session calls on one instance", 1000000, 6000000), ("most calls on one instance max ", 131072, 131072), ("hook matrix growths", 3, 3), ("hook matrix max size", 50, 50)],
+            Which::Distance => vec![("exhaustive pairs", 100000, 2000000), ("prefix cells compared", 1000000, 20000000), ("pairs where a discount lowered the distance", 10000, 100000), ("random pairs beyond capacity 20", 500, 5000), ("long pairs with sampled prefix cells", 200, 2000), ("random cases with per-position character classes", 2000, 20000), ("re-classed repeat calls", 10000, 100000), ("random cases over an alphabet of 41-110 symbols", 3000, 30000), ("random cases over letters related by case or compatibility mappings", 3000, 30000), ("random cases over letters that agree in their low 8, 16 or 20 bits", 3000, 30000), ("calls on a word buffer overwritten in place since the call before", 20000, 200000), ("pairs holding more than 256 different letters", 200, 2000), ("calls with one word held fixed while the other grows", 20000, 200000), ("session calls on one instance", 1000000, 6000000), ("most calls on one instance max ", 131072, 131072), ("hook matrix growths", 3, 3), ("hook matrix max size", 50, 50)],
             Which::Jaccard => vec![("exhaustive pairs", 100000, 1500000), ("pairs with partial overlap", 20000, 200000), ("pairs beyond the initial capacity of 20", 500, 5000), ("calls whose arguments are ranges of one buffer that overlap only partly", 20000, 200000), ("random cases over elements that agree in their low 8, 16 or 20 bits", 1000, 10000), ("calls on a buffer overwritten in place since the call before", 100000, 1000000), ("random cases over a wide alphabet", 1000, 10000), ("hook jaccard accesses", 100000, 1000000)],
             Which::Index => vec![("prepare calls", 5000, 50000), ("capped calls", 500, 5000), ("calls with ties at the cut", 100, 1000), ("size 0", 300, 3000), ("corpus prepare calls", 200, 2000), ("stores of 1023-5000 records", 50, 500), ("queries with more than 255 distinct grams", 300, 15000), ("calls at the boundary between 'all listed' and 'capped'", 300, 15000), ("session calls on one index", 1000000, 10000000), ("most calls on one index max ", 131000, 131000), ("sessions past 2^17 calls", 2, 20), ("calls with a query without words", 300, 3000), ("sparse indexes of 65 000 - 330 000 records", 16, 160), ("queries with more than 65 536 distinct grams", 2, 50), ("stores of words with letters above U+FFFF and their 16-bit look-alikes", 300, 3000), ("stores of random words and their look-alikes under 8-, 16- or 20-bit packing", 300, 3000)],
             Which::Unchecked => vec![("direct distance/similarity calls", 20000, 200000), ("direct calls beyond capacity 20", 5000, 50000), ("store-level searches", 5000, 50000), ("store-level rounds with 127-1500 records", 200, 2000), ("store-level rounds with clear and re-add", 500, 5000), ("type-ahead sequences with adds in between", 1000, 10000), ("direct call sequences with words of 76-420 letters", 200, 2000), ("direct call sequences with arithmetic length relations", 300, 3000), ("store-level queries of 65-200 words", 300, 3000), ("searches on a surviving store after a neighbour store was dropped", 3000, 30000), ("stores filled on one thread and searched on another", 500, 5000), ("direct calls whose arguments share their buffers", 5000, 50000), ("jaccard calls on sets of 256-70000 distinct elements", 20, 200), ("hook matrix accesses", 1000000, 10000000), ("hook matrix growths", 3, 3), ("hook matrix max size", 50, 50), ("hook counter accesses", 10000, 100000), ("hook cost accesses", 100000, 1000000), ("hook jaccard accesses", 10000, 100000)],
@@ -1191,6 +1191,37 @@ impl Prop for Prims {
                     if c1.len().max(c2.len()) > 20 {
                         cx.count("random pairs beyond capacity 20");
                     }
+                }
+                if !miri && cx.rng.chance(1, 30) {
+                    // a pair of words that hold more than 256 DIFFERENT letters between them (130-400 consecutive code points
+                    // each, or one word of 257-400): whatever is numbered, indexed or counted per distinct letter goes past 2^8
+                    let start = *cx.rng.pick(&[0x4e00u32, 0x3400, 0xac00, 0x20000, 0x100]);
+                    let n1 = cx.rng.range(130, 400);
+                    let c1: Vec<char> = (0..n1 as u32).filter_map(|k| std::char::from_u32(start + k)).collect();
+                    let c2: Vec<char> = match cx.rng.below(4) {
+                        0 => {
+                            // the same word with its last letter replaced by its first
+                            let mut x = c1.clone();
+                            let last = x.len() - 1;
+                            x[last] = x[0];
+                            x
+                        }
+                        1 => (0..cx.rng.range(130, 400) as u32).filter_map(|k| std::char::from_u32(start + 200 + k)).collect(),
+                        2 => gen::rand_edit(&mut cx.rng, &c1, &c1),
+                        _ => {
+                            // letter k replaced by letter k + 256 of the same range
+                            let mut x = c1.clone();
+                            let at = cx.rng.below(x.len());
+                            x[at] = std::char::from_u32(x[at] as u32 + 256).unwrap_or('q');
+                            x
+                        }
+                    };
+                    let distinct: BTreeSet<char> = c1.iter().chain(c2.iter()).cloned().collect();
+                    if distinct.len() > 256 {
+                        cx.count("pairs holding more than 256 different letters");
+                    }
+                    private::check_distance(cx, own.as_ref(), &c1, &c2, false);
+                    private::check_distance(cx, own.as_ref(), &c2, &c1, false);
                 }
                 private::FREE_CLASSES.with(|f| f.set(None));
             }
